@@ -221,6 +221,17 @@ Section T.
     destruct (lookup i R) eqn:E; [intros _; eapply lookup_some_nonempty; eauto|exact IH].
   Qed.
 
+  (* several station keys: the registration is found whatever the position of the key the client
+     obfuscated its tag to, provided the identifiers revealed under the earlier keys are not registered *)
+  Lemma first_reg_any_position pre id post R r :
+    (forall x, In x pre -> lookup x R = None) -> lookup id R = Some r ->
+    first_reg (pre ++ id :: post) R = Some r.
+  Proof.
+    intros Hpre Hid. induction pre as [|x pre IH]; cbn.
+    - now rewrite Hid.
+    - rewrite (Hpre x) by now left. apply IH. intros y Hy. apply Hpre. now right.
+  Qed.
+
   Theorem segmentation_invariance :
     forall tbl R tracked ts t r fl data reads,
       prefix_table_wfb tbl = true ->
